@@ -210,6 +210,42 @@ def pairing(P, D, xs, ys, soc=False):
     return out
 
 
+def weak_duality_rlt(ses, P, D, name, kind, sample):
+    """Weak duality of a conic pair by reformulation-linearisation: products of the rows of P with the rows of D (this is
+    the textbook proof y'(Ax - b)), cone memberships replaced by the pairing inequalities; QF_LRA.  True iff proved."""
+    from ..tv import whole, block_polys, block_socs, pairing_poly, rlt_refute
+    from ..poly import Poly
+    if len(P.xmat) != len(D.xmat) or not soc_paired(P, D):
+        return False
+    bp, bd = whole(P), whole(D)
+    G1, H1, c1 = block_polys(P, bp, 'x')
+    G2, H2, c2 = block_polys(D, bd, 'y')
+    pairs = [pairing_poly(a, b) for a, b in zip(c1, c2)]
+    for (h1, t1), (h2, t2) in zip(block_socs(P, bp, 'x'), block_socs(D, bd, 'y')):
+        dot = sum((a * b for a, b in zip(t1, t2)), Poly())
+        pairs += [h1 * h2 + dot, h1 * h2 - dot]
+    obj = sum((Poly.var('x%d' % j) * c for j, c in enumerate(P.obj) if c != 0), Poly()) + \
+        sum((Poly.var('y%d' % j) * c for j, c in enumerate(D.obj) if c != 0), Poly())
+    (res, _), lincs = rlt_refute(ses, G1, H1, ['x%d' % j for j in range(P.n)], G2, H2, ['y%d' % j for j in range(D.n)],
+                                 pairs, [-obj], name + '/weak-duality', timeout_ms=30000)
+    if res != 'unsat':
+        return False
+    st = ses.stats
+    st.obligations += 1
+    st.kinds[kind] = st.kinds.get(kind, 0) + 1
+    st.twins += 1
+    r2, _ = ses.solve(lincs, timeout_ms=30000, tactic=('simplify', 'solve-eqs', 'smt'), label=name + '/weak-duality/rlt-twin')
+    if r2 == 'sat':
+        st.twins_ok += 1
+    elif r2 == 'unsat':
+        raise HarnessError('vacuous weak-duality obligation (rlt): %s' % name)
+    st.discharged += 1
+    if len(st.samples) < 12:
+        st.samples.append(dict(label=name + '/weak-duality', kind=kind, result='unsat', via='rlt', linear_constraints=len(lincs),
+                               **sample))
+    return True
+
+
 def run_exp(case, ses, m, fp, fd, P, D):
     z3 = z3mod()
     name = case['name']
@@ -245,6 +281,8 @@ def run_exp(case, ses, m, fp, fd, P, D):
         if len(ses.stats.samples) < 8:
             ses.stats.samples.append(sample)
     # weak duality for ALL feasible pairs of the true programs (relaxation: see module docstring)
+    if weak_duality_rlt(ses, P, D, name, 'exp-weak-duality', sample):
+        return
     drop = bool(P.qmat) and soc_paired(P, D)
     hyp = relaxed(P, xs, not drop) + relaxed(D, ys, not drop) + pairing(P, D, xs, ys, drop)
     neg = [P.obj_term(xs) + D.obj_term(ys) < 0]
@@ -310,7 +348,8 @@ def ro_desc(name):
 
 
 RO_MEMBERS = ['static-box', 'static-box-zero-lb', 'static-box-zero-ub', 'static-box-negative', 'static-norm1', 'ldr-full',
-              'static-ball', 'static-lifted', 'min-forall']
+              'static-ball', 'static-lifted', 'min-forall', 'static-ellipsoid-wide', 'static-ellipsoid-narrow', 'static-ball3',
+              'static-box-overlap', 'vector-rows-mixed-zero']
 
 
 def cases(tier, seed, rnd):
@@ -408,7 +447,9 @@ def run_case(case, ses):
                 ses.stats.samples.append(dict(sample, dual_opt=str(vd)))
     # (i) weak duality for all feasible pairs
     res = None
-    if not lp and soc_paired(P, D):
+    if not lp and weak_duality_rlt(ses, P, D, name, 'weak-duality', sample):
+        res = 'unsat'
+    elif not lp and soc_paired(P, D):
         # cone-pairing relaxation: memberships are only hypotheses here, so they may be replaced by consequences
         hyp = relaxed(P, xs, False) + relaxed(D, ys, False) + pairing(P, D, xs, ys, True)
         res, model = ses.oblige(name + '/weak-duality/paired', hyp, [px + dy < 0], kind='weak-duality', core=False,
@@ -431,19 +472,26 @@ def run_case(case, ses):
             raise HarnessError('weak-duality counterexample does not reproduce: %s' % name)
         return
     if not lp:
+        # zero gap and dual solvability are existential claims: witnesses first (the real ECOS solutions of both real
+        # formulas, checked against the exact programs, tolerance 1e-6); the exact query only if there is no witness
+        w = exp_witness(fp, fd, P, D)
+        res = None
+        if w['vp'] is not None and w['vd'] is not None and not w['bad']:
+            ses.stats.obligations += 1
+            ses.stats.kinds['soc-zero-gap-witness'] = ses.stats.kinds.get('soc-zero-gap-witness', 0) + 1
+            if abs(w['vp'] + w['vd']) <= 1e-6 * (1 + abs(w['vp'])):
+                ses.stats.discharged += 1
+                return
+            data = dict(case=case, primal=str(w['vp']), dual=str(w['vd']), dual_status='ecos')
+            if abs(w['vp'] + w['vd']) > 1e-5 * (1 + abs(w['vp'])) and replay(data):
+                finding(ses, 'C08:%s:gap' % bucket(case), '%s: primal optimum %r, dual formula optimum %r (expected %r)'
+                        % (name, w['vp'], w['vd'], -w['vp']), data, 'rsv.props.c08:replay')
+                return
+            ses.stats.obligations -= 1
+            ses.stats.kinds['soc-zero-gap-witness'] -= 1
         eps = Fraction(1, 10 ** 4) * (1 + abs(vp))
         res, _ = ses.expect_sat(name + '/zero-gap', Pc + Dc + [px + dy <= z3.RealVal(str(eps))], kind='soc-zero-gap',
                                 core=False)
-        if res == 'unknown':
-            # existential claim: a witness suffices - the real ECOS solutions of both real formulas, checked against
-            # the exact programs (tolerance 1e-6)
-            w = exp_witness(fp, fd, P, D)
-            if w['vp'] is not None and w['vd'] is not None and not w['bad'] \
-                    and abs(w['vp'] + w['vd']) <= 1e-6 * (1 + abs(w['vp'])):
-                ses.retract(name + '/zero-gap', 'soc-zero-gap', False)
-                ses.stats.obligations += 1
-                ses.stats.discharged += 1
-                ses.stats.kinds['soc-zero-gap-witness'] = ses.stats.kinds.get('soc-zero-gap-witness', 0) + 1
         if res == 'unsat':
             data = dict(case=case, primal=str(vp), dual='gap', dual_status='gap>eps')
             if replay(data):
